@@ -92,34 +92,34 @@ type Spec struct {
 	StateVars  []string          // Lean variable names appended to every return in "state" mode
 	Calls      map[string]string // Go function source (e.g. "min") -> Lean function applied to the translated arguments
 	// check-sequence extensions (handler bodies after the backend call)
-	InitCond  map[string]string // "<if init source> ; <cond source>" -> Lean Bool term standing for the whole test
-	ErrCalls  map[string]string // call-name prefix -> Lean Bool input "this call returned an error"; the `if err != nil` after it tests that input
-	Effects   map[string]string // call-name prefix of an expression statement -> "leanVar := term" binding it performs
-	RangeCond map[string]string // source of a ranged-over expression -> Lean Bool input "some iteration takes the loop's single `if ... { return }`"
-	Status    map[string]int    // "status"/"statusstate" return modes: Go expression source (http.StatusX) -> number
-	StatusIdx int               // index of the status among the results ("status", "statusstate", "statuserr")
-	ReturnVal   string   // Ret "verdict": the Lean term every `return` stands for
-	ContinueVal string   // the Lean term a `continue` stands for ("" = continue unsupported)
-	ParamNames  []string // canonical names of the Go function's parameters, by position ("" = leave): a renamed parameter is aliased back
-	AppendEffect map[string]string // `x = append(x, v)` where v is this (canonical) identifier -> "leanVar := term" binding it performs
-	TypeSwitch  map[string]map[string]string // asserted expression (`x` of `switch v := x.(type)`) -> case type text ("nil", "string") -> Lean Bool "the dynamic type is this one"
-	InitCondByCall map[string]string // `if err := x.M(…); err != nil`: method-name suffix (".UnmarshalBinary") -> Lean Bool, whatever the receiver is called
-	CallRepl    map[string]string // call name -> Lean term for the call's value, whatever its arguments (their value is pinned by another unit)
-	AddrIsSome  bool     // pointers to local integers model optional values: `&x` is `some x`, `nil` (as a returned or assigned value) is `none`
-	Prelude     string   // Lean let-bindings placed before the translated statements (initial values of state variables)
-	Canon       bool     // function-level aliases (prepare): renamed parameters and hoisted pure reads are substituted back before markers and keys are matched
-	Inline      bool     // translate calls to single-result functions / methods declared in the same file by inlining their bodies
-	Lazy      bool              // drop `x := e` when e is not translatable; a later translated use of x then fails the unit
-	Bind      map[string]string // call-name prefix -> the name the Spec's keys use for the call's first result (survives a rename of the local)
+	InitCond       map[string]string            // "<if init source> ; <cond source>" -> Lean Bool term standing for the whole test
+	ErrCalls       map[string]string            // call-name prefix -> Lean Bool input "this call returned an error"; the `if err != nil` after it tests that input
+	Effects        map[string]string            // call-name prefix of an expression statement -> "leanVar := term" binding it performs
+	RangeCond      map[string]string            // source of a ranged-over expression -> Lean Bool input "some iteration takes the loop's single `if ... { return }`"
+	Status         map[string]int               // "status"/"statusstate" return modes: Go expression source (http.StatusX) -> number
+	StatusIdx      int                          // index of the status among the results ("status", "statusstate", "statuserr")
+	ReturnVal      string                       // Ret "verdict": the Lean term every `return` stands for
+	ContinueVal    string                       // the Lean term a `continue` stands for ("" = continue unsupported)
+	ParamNames     []string                     // canonical names of the Go function's parameters, by position ("" = leave): a renamed parameter is aliased back
+	AppendEffect   map[string]string            // `x = append(x, v)` where v is this (canonical) identifier -> "leanVar := term" binding it performs
+	TypeSwitch     map[string]map[string]string // asserted expression (`x` of `switch v := x.(type)`) -> case type text ("nil", "string") -> Lean Bool "the dynamic type is this one"
+	InitCondByCall map[string]string            // `if err := x.M(…); err != nil`: method-name suffix (".UnmarshalBinary") -> Lean Bool, whatever the receiver is called
+	CallRepl       map[string]string            // call name -> Lean term for the call's value, whatever its arguments (their value is pinned by another unit)
+	AddrIsSome     bool                         // pointers to local integers model optional values: `&x` is `some x`, `nil` (as a returned or assigned value) is `none`
+	Prelude        string                       // Lean let-bindings placed before the translated statements (initial values of state variables)
+	Canon          bool                         // function-level aliases (prepare): renamed parameters and hoisted pure reads are substituted back before markers and keys are matched
+	Inline         bool                         // translate calls to single-result functions / methods declared in the same file by inlining their bodies
+	Lazy           bool                         // drop `x := e` when e is not translatable; a later translated use of x then fails the unit
+	Bind           map[string]string            // call-name prefix -> the name the Spec's keys use for the call's first result (survives a rename of the local)
 }
 
 type tr struct {
 	sp         Spec
-	pendingErr string              // Lean Bool for the `err` assigned by the latest ErrCalls call
-	aliases    map[string]ast.Expr // Go local -> the expression it stands for (hoisted pure reads, renamed call results)
-	opaque     map[string]bool     // Go locals whose defining expression could not be translated: fine as long as nothing translated uses them
-	file       *ast.File           // the file being translated (helper inlining)
-	fd         *ast.FuncDecl       // the function being translated (set by prepare)
+	pendingErr string                  // Lean Bool for the `err` assigned by the latest ErrCalls call
+	aliases    map[string]ast.Expr     // Go local -> the expression it stands for (hoisted pure reads, renamed call results)
+	opaque     map[string]bool         // Go locals whose defining expression could not be translated: fine as long as nothing translated uses them
+	file       *ast.File               // the file being translated (helper inlining)
+	fd         *ast.FuncDecl           // the function being translated (set by prepare)
 	closures   map[string]*ast.FuncLit // local `name := func(…) {…}` definitions seen so far
 	depth      int                 // inlining depth
 	errKnown   int                 // what is known about `err` on this path: 0 nothing, 1 non-nil, 2 nil (set by the branches of `if err != nil`)
@@ -1182,6 +1182,25 @@ func (t *tr) ret(r *ast.ReturnStmt) string {
 		return ""
 	case "status", "statusstate":
 		// (int, error) handler results: the HTTP status, followed by StateVars in "statusstate" mode
+		if t.sp.Ret == "statusstate" && len(r.Results) == 1 {
+			// `return f(x)` where f hands back (value, error) and is an ErrCalls callee: the value's status when it succeeds,
+			// nothing and an error when it fails
+			if c, ok := r.Results[0].(*ast.CallExpr); ok {
+				name := src(c.Fun)
+				for pfx, inp := range t.sp.ErrCalls {
+					if strings.HasPrefix(name, pfx) || strings.HasPrefix(norm(src(c)), norm(pfx)) {
+						n, ok := t.sp.Status[src(c)]
+						if !ok {
+							failf(r, "status return: unknown status expression %s", src(c))
+						}
+						b := strings.Split(inp, "|")[0]
+						okv := "(" + strings.Join(append([]string{fmt.Sprintf("(%d : Nat)", n), "false"}, t.sp.StateVars...), ", ") + ")"
+						bad := "(" + strings.Join(append([]string{"(0 : Nat)", "true"}, t.sp.StateVars...), ", ") + ")"
+						return "(if " + b + " then " + bad + " else " + okv + ")"
+					}
+				}
+			}
+		}
 		st := ""
 		k := src(r.Results[t.sp.StatusIdx])
 		if n, ok := t.sp.Status[k]; ok {
@@ -1437,6 +1456,28 @@ func (t *tr) block(b []ast.Stmt, tail string, ind string) string {
 		// `for i := 0; i < len(X); i++ { … X[i] … }` is `for i, e := range X { … e … }`
 		if r, ok := t.indexLoopAsRange(x); ok {
 			return t.block(append([]ast.Stmt{r}, rest...), tail, ind)
+		}
+		// a counting loop whose body only accumulates into variables the unit ignores (Spec.IgnoreLHS), e.g. the big-endian
+		// accumulation `result = result<<8 | uint64(data[i])`: it decides nothing, so it is dropped
+		pure := len(x.Body.List) > 0
+		for _, bs := range x.Body.List {
+			as, ok := bs.(*ast.AssignStmt)
+			if !ok || len(as.Lhs) != 1 {
+				pure = false
+				break
+			}
+			ign := false
+			for _, ig := range t.sp.IgnoreLHS {
+				if src(as.Lhs[0]) == ig {
+					ign = true
+				}
+			}
+			if !ign {
+				pure = false
+			}
+		}
+		if pure {
+			return t.block(rest, tail, ind)
 		}
 		failf(s, "unsupported statement %T: %s", s, src(s))
 	case *ast.RangeStmt:
